@@ -310,6 +310,78 @@ func init() {
 		return tt.Bin(OURem, v, tt.Const(BV32, uint64(nn)))
 	}
 
+	// ---- math/big (64-bit payloads only) and crypto/rand.Int ----
+	bigOf := func(p *Path, t *Term) Value {
+		slot := new(Value)
+		*slot = Struct{t}
+		return Ptr{slot: slot}
+	}
+	bigVal := func(p *Path, v Value) *Term {
+		ptr, ok := v.(Ptr)
+		if !ok || ptr.slot == nil {
+			p.unsupported("math/big: nil or foreign *big.Int")
+		}
+		st, ok := (*ptr.slot).(Struct)
+		if !ok || len(st) != 1 {
+			p.unsupported("math/big: value not created by the model")
+		}
+		return st[0].(*Term)
+	}
+	externals["math/big.NewInt"] = func(p *Path, fr *Frame, fn *ssa.Function, a []Value) Value { return bigOf(p, a[0].(*Term)) }
+	externals["(*math/big.Int).Uint64"] = func(p *Path, fr *Frame, fn *ssa.Function, a []Value) Value { return bigVal(p, a[0]) }
+	externals["(*math/big.Int).Int64"] = func(p *Path, fr *Frame, fn *ssa.Function, a []Value) Value { return bigVal(p, a[0]) }
+	externals["(*math/big.Int).IsUint64"] = func(p *Path, fr *Frame, fn *ssa.Function, a []Value) Value {
+		return p.tt.Cmp(OSle, p.tt.U64(0), bigVal(p, a[0]))
+	}
+	externals["(*math/big.Int).IsInt64"] = func(p *Path, fr *Frame, fn *ssa.Function, a []Value) Value { return p.tt.True() }
+	externals["(*math/big.Int).Sign"] = func(p *Path, fr *Frame, fn *ssa.Function, a []Value) Value {
+		v := bigVal(p, a[0])
+		tt := p.tt
+		return tt.Ite(tt.Cmp(OSlt, v, tt.U64(0)), tt.I64(-1), tt.Ite(tt.Eq(v, tt.U64(0)), tt.I64(0), tt.I64(1)))
+	}
+	// crypto/rand.Int(reader, max): uniform in [0,max); panics if max <= 0. The bytes come from the same
+	// scripted source as crypto/rand.Read (k = ceil(bitlen(max-1)/8) bytes, top bits masked); the
+	// rejection-sampling retry is cut (the draw is assumed to be < max).
+	externals["crypto/rand.Int"] = func(p *Path, fr *Frame, fn *ssa.Function, a []Value) Value {
+		tt := p.tt
+		max := bigVal(p, a[1])
+		if p.branch(tt.Cmp(OSle, max, tt.U64(0))) {
+			panic(goPanic{val: Iface{t: types.Typ[types.String], v: Str{c: "crypto/rand: argument to Int is <= 0"}}, site: p.site(fr), msg: "crypto/rand: argument to Int is <= 0"})
+		}
+		nm1 := tt.Bin(OSub, max, tt.U64(1))
+		bl := int(p.concretize(p.bitsLen(nm1, 64), "bit length of rand.Int bound"))
+		if bl == 0 {
+			return Tuple{bigOf(p, tt.U64(0)), Iface{}}
+		}
+		k := (bl + 7) / 8
+		b := bl % 8
+		if b == 0 {
+			b = 8
+		}
+		name := p.fresh("rand")
+		p.inputs = append(p.inputs, InputRec{Name: name, Kind: "rand"})
+		v := tt.U64(0)
+		for i := 0; i < k; i++ {
+			by := tt.App(name, BV8, tt.U64(uint64(i)))
+			if i == 0 {
+				by = tt.Bin(OAnd, by, tt.Const(BV8, uint64((1<<uint(b))-1)))
+			}
+			v = tt.Bin(OOr, tt.Bin(OShl, v, tt.U64(8)), tt.Zext(by, 64))
+		}
+		p.assume(tt.Cmp(OUlt, v, max))
+		if p.concRand {
+			// case split over every possible draw (harness asked for it: the layout downstream is then constant)
+			v = tt.U64(p.concretize(v, "rand.Int draw"))
+		}
+		return Tuple{bigOf(p, v), Iface{}}
+	}
+	// math/rand.Shuffle: modelled as the identity permutation (assumption A-ORDER: what is asserted does
+	// not depend on the order of the shuffled elements); natively the real shuffle runs
+	externals["math/rand.Shuffle"] = func(p *Path, fr *Frame, fn *ssa.Function, a []Value) Value {
+		p.res.Stubs["math/rand.Shuffle = identity (A-ORDER)"] = true
+		return nil
+	}
+
 	// ---- os / runtime / misc ----
 	externals["os.Getenv"] = func(p *Path, fr *Frame, fn *ssa.Function, a []Value) Value { return Str{} }
 	externals["os.LookupEnv"] = func(p *Path, fr *Frame, fn *ssa.Function, a []Value) Value {
@@ -707,6 +779,9 @@ func (p *Path) intrinsic(fr *Frame, fn *ssa.Function, a []Value) (Value, bool) {
 		d := a[0].(*Term)
 		p.boundsCheck(fr, tt.Cmp(OSle, tt.U64(0), d), "vx_clock_advance: negative")
 		p.clock = tt.Bin(OAdd, p.clockTerm(), d)
+		return nil, true
+	case "vx_concretize_rand": // every crypto/rand.Int draw is split into its possible values
+		p.concRand = true
 		return nil, true
 	case "vx_clock_free": // every Now() call returns a fresh, later instant
 		p.clockFree = true
